@@ -395,7 +395,8 @@ def rebuild(kind, n, witness):
             u.arm(w[2], w[3])
             w = w[1]
         try:
-            u.apply(w)
+            with core.time_limit(5):
+                u.apply(w)
         except Exception:  # noqa - a refused call may be part of a witness (it can flip hidden bits)
             pass
         u.raise_at = frozenset()
@@ -413,7 +414,8 @@ def execute(kind, n, witness, op, pre=None, raise_at=(), persist=None, snap=Fals
     ex.exc = None
     ex.mro = ()
     try:
-        u.apply(op)
+        with core.time_limit(5):
+            u.apply(op)
         ex.outcome = "ok"
     except Exception as exc:  # noqa - everything the call raises is an observation
         ex.outcome = "InjectedFault" if isinstance(exc, InjectedFault) else type(exc).__name__
